@@ -566,27 +566,37 @@ def run_tlc(n, pre, tmp):
 
 
 def conform(n, path, run):
-    """Compare one TLC path with its replay.  -> ('conform' | 'shape' | 'diverge', detail)."""
+    """Compare one TLC path with its replay.  -> ('conform' | 'shape' | 'diverge', detail).
+
+    Shape first (does the implementation still execute one read and one one-parameter insert per constructor, in the
+    order the path prescribes?), values only for a path whose shape matches."""
     if run.status != "complete" or len(run.steps) != len(path):
-        return "shape", "replay ended as %s after %d of %d model steps" % (run.status, len(run.steps), len(path))
+        done = len(run.steps)
+        what = ""
+        if done:
+            what = "; step %d executed statements %r where the model has %s" % (done, step_kinds(run.steps[-1]), path[done - 1][0])
+        return "shape", "replay ended as %s after %d of %d model steps%s" % (run.status, done, len(path), what)
     for i, ((act, proc, after), s) in enumerate(zip(path, run.steps)):
         kinds = step_kinds(s)
-        want = {"Read": "R", "Insert": "W"}.get(act)
-        if kinds != want:
+        if kinds != {"Read": "R", "Insert": "W"}.get(act):
             return "shape", "model step %d is %s(%d) but the worker executed statements %r" % (i + 1, act, proc, kinds)
-        if s.obs != after["rows"]:
-            return "diverge", "after step %d %s(%d): table rows %r, model rows %r" % (i + 1, act, proc, s.obs, after["rows"])
         ev = s.ev
         if act == "Read":
             params = ev.get("info", {}).get("params") if ev["ev"] == "point" else None
             if ev["ev"] != "point" or ev.get("kind") != "W" or not isinstance(params, list) or len(params) != 1:
                 return "shape", "after Read(%d) the worker is not paused at a one-parameter INSERT: %r" % (proc, ev)
-            if params[0] != after["seen"][proc - 1]:
-                return "diverge", "Read(%d): implementation will insert id %r, model read %r" % (proc, params[0], after["seen"][proc - 1])
+        elif ev["ev"] == "point":
+            return "shape", "after Insert(%d) the constructor continues with another statement" % proc
+    for i, ((act, proc, after), s) in enumerate(zip(path, run.steps)):
+        ev = s.ev
+        if s.obs != after["rows"]:
+            return "diverge", "after step %d %s(%d): table rows %r, model rows %r" % (i + 1, act, proc, s.obs, after["rows"])
+        if act == "Read":
+            got = ev["info"]["params"][0]
+            if got != after["seen"][proc - 1]:
+                return "diverge", "Read(%d): implementation will insert id %r, model read %r" % (proc, got, after["seen"][proc - 1])
         else:
             st = after["pc"][proc - 1]
-            if ev["ev"] == "point":
-                return "shape", "after Insert(%d) the constructor continues with another statement" % proc
             if (ev["ev"] == "done") != (st == "done"):
                 return "diverge", "Insert(%d): implementation %s, model %s" % (proc, ev["ev"], st)
             if ev["ev"] == "done" and ev["result"]["session_id"] != after["seen"][proc - 1]:
@@ -616,9 +626,8 @@ def run_tlc_shard(ctx, n):
     if info["capped"]:
         acc.note("TLC N=%d: more than %d maximal paths, only the first %d replayed" % (n, MAX_TLC_PATHS, MAX_TLC_PATHS))
     if info["init"].get("rows") != env.pre:
-        acc.note("TLC N=%d: model initial rows %r differ from the warmed-up table %r; conformance replay skipped"
+        acc.note("TLC N=%d: model initial rows %r differ from the warmed-up table %r (the model numbers sessions from 0)"
                  % (n, info["init"].get("rows"), env.pre))
-        return acc
     results = {}
 
     def handle(group, i):
@@ -643,17 +652,18 @@ def run_tlc_shard(ctx, n):
         first.setdefault(res, detail)
         acc.traces += 1
         acc.transitions += nsteps
-        mfail += model_fails
-        agree += (model_fails == impl_fails)
+        if res == "conform":
+            mfail += model_fails
+            agree += (model_fails == impl_fails)
     acc.count("tlc_paths_replayed", len(results))
     acc.count("tlc_paths_conform", tally["conform"])
     acc.count("tlc_paths_shape_mismatch", tally["shape"])
     acc.count("tlc_paths_diverged", tally["diverge"])
     acc.note("TLC N=%d: %d states, %d transitions, %d maximal paths; model invariant AllCreated %s; replay on the workers: "
-             "%d conform, %d shape mismatch, %d diverge; model predicts a failed constructor on %d paths, model and "
-             "implementation verdict agree on %d/%d paths"
+             "%d conform, %d shape mismatch, %d diverge; on the conforming paths the model predicts a failed constructor on "
+             "%d, model and implementation verdict agree on %d/%d"
              % (n, info["states"], info["transitions"], len(paths), "violated" if info["invariant_violated"] else "holds",
-                tally["conform"], tally["shape"], tally["diverge"], mfail, agree, len(results)))
+                tally["conform"], tally["shape"], tally["diverge"], mfail, agree, tally["conform"]))
     if tally["shape"]:
         acc.note("TLC N=%d: the implementation no longer has the model's read-then-insert shape (%s); the model is stale, "
                  "the verdict rests on the direct exploration only" % (n, first["shape"]))
